@@ -615,7 +615,12 @@ class Program:
     def fields(self, ci: ClassInfo) -> list[dict]:
         """Ordered field list of an attrs.define / dataclass class (own body only)."""
         out = []
+        FIELD_CALLS = ("attrs.field", "field", "attr.ib", "attrs.ib", "dataclasses.field")
         for s in ci.node.body:
+            if isinstance(s, ast.Assign) and len(s.targets) == 1 and isinstance(s.targets[0], ast.Name) \
+                    and isinstance(s.value, ast.Call) and call_name(s.value) in FIELD_CALLS[:4] and call_name(s.value) != "field":
+                # un-annotated attrs.field(): still a field (attrs falls back to auto_attribs=False)
+                s = ast.AnnAssign(target=s.targets[0], annotation=ast.Constant(value=None), value=s.value, simple=1, lineno=s.lineno, col_offset=s.col_offset)
             if not (isinstance(s, ast.AnnAssign) and isinstance(s.target, ast.Name)):
                 continue
             name = s.target.id
